@@ -23,6 +23,10 @@ theorem c09_generated_transfer_tcp_independent (p₁ p₂ : Nat → Bool) (o₁ 
     iteration transfer_tcp p₁ o₁ = iteration transfer_tcp p₂ o₂ :=
   iteration_independent_of_isolated _ c08_generated_transfer_tcp_isolated p₁ p₂ o₁ o₂
 
+theorem c09_generated_transfer_udp_independent (p₁ p₂ : Nat → Bool) (o₁ o₂ : Nat → Choice) :
+    iteration transfer_udp p₁ o₁ = iteration transfer_udp p₂ o₂ :=
+  iteration_independent_of_isolated _ c08_generated_transfer_udp_isolated p₁ p₂ o₁ o₂
+
 /-- in the accept loops every operation on the accepted connection (an await that mentions it) is in the connection's own
     task; the loop itself only accepts, builds the codec from the configuration and spawns -/
 theorem c09_generated_accept_loops_flow_work_in_task :
